@@ -605,7 +605,7 @@ func TestC45(t *testing.T) {
 			c.scriptBatch(su, types)
 		}
 	}
-	rec.RequireClasses(t, "exported", "imported", "location:address", "location:string", "location:identifier", "location:transaction", "location:script",
+	requireClasses(t, rec, "exported", "imported", "location:address", "location:string", "location:identifier", "location:transaction", "location:script",
 		"location:repl", "constructor:OptionalType", "constructor:VariableSizedArrayType", "constructor:ConstantSizedArrayType", "constructor:DictionaryType",
 		"constructor:ReferenceType", "constructor:CompositeType", "constructor:IntersectionType", "constructor:CapabilityType", "constructor:FunctionType",
 		"constructor:InclusiveRangeType", "has-authorization", "has-intersection", "has-disjunction")
